@@ -75,6 +75,7 @@ class Facts:
         self.writes = set()
         self.calls = []         # (callee, bypass: bool, lineno)
         self.clears = set()     # method names
+        self.clears_all = False # the "for name in dir(type(self)): ... .cache_clear()" idiom
         self.slot_pops = set()  # literal keys removed from elemental_data
         self.lru = None         # ('n', int) | ('inf',) | None
         self.slot = None        # (slotname, bypass_arg, key_args, relevant_args)
@@ -113,6 +114,12 @@ class Analyzer:
             if isinstance(n_, ast.Assign) and len(n_.targets) == 1 and isinstance(n_.targets[0], ast.Name) \
                     and isinstance(n_.value, ast.Name) and n_.value.id in params_:
                 self.param_copies[n_.targets[0].id] = n_.value.id
+        self.loop_consts = {}           # loop variable -> literal strings it ranges over
+        for n_ in ast.walk(fn):
+            if isinstance(n_, ast.For) and isinstance(n_.target, ast.Name) and \
+                    isinstance(n_.iter, (ast.Tuple, ast.List)) and n_.iter.elts and \
+                    all(const_str(x) is not None for x in n_.iter.elts):
+                self.loop_consts[n_.target.id] = [const_str(x) for x in n_.iter.elts]
         self.view_aliases = set()       # names bound to a computed value / element of a field
         self.child_names = set()        # names bound to FEMData(...) results
         self.child_shared = set()       # tables the child shares with the parent
@@ -126,6 +133,8 @@ class Analyzer:
         if k is not None:
             return k
         if isinstance(e, ast.Name):
+            if e.id in self.loop_consts:
+                return tuple(self.loop_consts[e.id])      # several literal keys
             a = self.fn.args
             params = {x.arg for x in a.posonlyargs + a.args + a.kwonlyargs}
             if e.id in params:
@@ -133,6 +142,20 @@ class Analyzer:
             src = self.param_copies.get(e.id)
             if src is not None:
                 return '?' + src
+        return None
+
+    @staticmethod
+    def expand(k):
+        return list(k) if isinstance(k, tuple) else [k]
+
+    def dict_keys(self, n):
+        """keys of a dict display (literal or '?param'), or None when one is neither"""
+        if isinstance(n, ast.Dict) and n.keys and all(k is not None and self.key_of(k) is not None
+                                                      for k in n.keys):
+            out = []
+            for k in n.keys:
+                out += self.expand(self.key_of(k))
+            return out
         return None
 
     # ---- what does an expression denote
@@ -170,21 +193,21 @@ class Analyzer:
             return self.denotes(e.value)
         if isinstance(e, ast.Subscript):
             base = self.denotes(e.value)
-            k = self.key_of(e.slice)
             res = set()
-            for (_, t, key) in base:
-                if t not in ('nodes', 'elements') and key is None and k is not None:
-                    res.add(('field', t, k))
-                else:
-                    res.add(('field', t, key))
+            for k in self.expand(self.key_of(e.slice)):
+                for (_, t, key) in base:
+                    if t not in ('nodes', 'elements') and key is None and k is not None:
+                        res.add(('field', t, k))
+                    else:
+                        res.add(('field', t, key))
             return res
         if isinstance(e, ast.Call):
             # value of a reader call on a table keeps denoting the table entry
             if isinstance(e.func, ast.Attribute) and e.func.attr in KEYED_READERS:
                 base = self.denotes(e.func.value)
-                k = self.key_of(e.args[0]) if e.args else None
+                ks = self.expand(self.key_of(e.args[0]) if e.args else None)
                 return {('field', t, (k if (t not in ('nodes', 'elements') and key is None) else key))
-                        for (_, t, key) in base}
+                        for (_, t, key) in base for k in ks}
             return out
         if isinstance(e, ast.IfExp):
             return self.denotes(e.body) | self.denotes(e.orelse)
@@ -389,13 +412,13 @@ class Analyzer:
                 if meth in MUTATORS:
                     keys = None
                     if meth in ('update', 'update_time_series') and gp.args:
-                        keys = dict_keys(gp.args[0])
+                        keys = self.dict_keys(gp.args[0])
                     elif meth == 'update_data' and len(gp.args) >= 2:
-                        keys = dict_keys(gp.args[1])
+                        keys = self.dict_keys(gp.args[1])
                     elif meth in ('overwrite', 'pop', 'set_attribute_data', 'setdefault', '__setitem__',
                                   '__delitem__') and gp.args:
-                        k = const_str(gp.args[0])
-                        keys = [k] if k is not None else None
+                        k = self.key_of(gp.args[0])
+                        keys = self.expand(k) if k is not None else None
                     for (_, t, key) in den:
                         if t not in ('nodes', 'elements') and key is None and keys is not None:
                             for k in keys:
@@ -406,17 +429,17 @@ class Analyzer:
                             self.facts.writes.add((t, key))
                     return
                 if meth in KEYED_READERS:
-                    k = self.key_of(gp.args[0]) if gp.args else None
-                    for (_, t, key) in den:
-                        self.facts.reads.add((t, k if (t not in ('nodes', 'elements') and key is None) else key))
+                    for k in self.expand(self.key_of(gp.args[0]) if gp.args else None):
+                        for (_, t, key) in den:
+                            self.facts.reads.add((t, k if (t not in ('nodes', 'elements') and key is None) else key))
                     return
             self.add('r', den)
             return
         if isinstance(p, ast.Compare) and n in p.comparators and len(p.ops) == 1 and \
                 isinstance(p.ops[0], (ast.In, ast.NotIn)):
-            k = self.key_of(p.left)
-            for (_, t, key) in den:
-                self.facts.reads.add((t, k if (t not in ('nodes', 'elements') and key is None) else key))
+            for k in self.expand(self.key_of(p.left)):
+                for (_, t, key) in den:
+                    self.facts.reads.add((t, k if (t not in ('nodes', 'elements') and key is None) else key))
             return
         self.add('r', den)
 
@@ -524,8 +547,44 @@ class Analyzer:
             changed = len(R) != before
         return R & set(self.facts.args)
 
+    def clear_all_idiom(self):
+        """for name in dir(type(self)): m = getattr(type(self), name, ...); if hasattr(m,
+        'cache_clear'): m.cache_clear()   -> every memoised method is cleared"""
+        def is_type_of_root(e):
+            return isinstance(e, ast.Call) and isinstance(e.func, ast.Name) and e.func.id == 'type' \
+                and len(e.args) == 1 and self.is_root(e.args[0])
+        for loop in ast.walk(self.fn):
+            if not (isinstance(loop, ast.For) and isinstance(loop.target, ast.Name)):
+                continue
+            it = loop.iter
+            if not (isinstance(it, ast.Call) and isinstance(it.func, ast.Name) and it.func.id == 'dir'
+                    and len(it.args) == 1 and is_type_of_root(it.args[0])):
+                continue
+            var = loop.target.id
+            bound = set()
+            for n in ast.walk(loop):
+                if isinstance(n, ast.Assign) and len(n.targets) == 1 and isinstance(n.targets[0], ast.Name) \
+                        and isinstance(n.value, ast.Call) and isinstance(n.value.func, ast.Name) \
+                        and n.value.func.id == 'getattr' and len(n.value.args) >= 2 \
+                        and is_type_of_root(n.value.args[0]) and isinstance(n.value.args[1], ast.Name) \
+                        and n.value.args[1].id == var:
+                    bound.add(n.targets[0].id)
+            for n in ast.walk(loop):
+                if isinstance(n, ast.Call) and isinstance(n.func, ast.Attribute) and n.func.attr == 'cache_clear' \
+                        and isinstance(n.func.value, ast.Name) and n.func.value.id in bound:
+                    # the call must not be filtered by anything but hasattr(m, 'cache_clear')
+                    p = self.par.get(self.par.get(n))
+                    ok = isinstance(p, ast.If) and isinstance(p.test, ast.Call) and \
+                        isinstance(p.test.func, ast.Name) and p.test.func.id == 'hasattr' and \
+                        len(p.test.args) == 2 and const_str(p.test.args[1]) == 'cache_clear'
+                    if ok or isinstance(p, ast.For):
+                        self.facts.clears_all = True
+                    else:
+                        self.err(n, 'cache_clear() under a condition that is not understood')
+
     def run(self):
         self.decorators()
+        self.clear_all_idiom()
         self.collect_aliases()
         self.ctor_calls()
         self.collect_aliases()
@@ -761,6 +820,18 @@ def translate(repo):
     for names, W in writers:
         allfacts['@' + W.name] = W
     R, Wr, C, P = closure(allfacts, universe)
+    # the clear-everything idiom, closed over calls
+    all_memo = {nm for nm, f in facts.items() if f.lru is not None}
+    ca = {m for m in allfacts if getattr(allfacts[m], 'clears_all', False)}
+    changed = True
+    while changed:
+        changed = False
+        for m in allfacts:
+            if m not in ca and any(c in ca for (c, _, _) in allfacts[m].calls):
+                ca.add(m)
+                changed = True
+    for m in ca:
+        C[m] |= all_memo
     slots = {f.slot[0]: nm for nm, f in facts.items() if f.slot}
     if len(slots) != sum(1 for f in facts.values() if f.slot):
         raise TranslateError('two methods use the same slot key')
